@@ -448,6 +448,48 @@ def check_two_threads(ps):
     return bad
 
 
+def check_subharmonic_isotropy(ps, sizes=(64, 70, 128)):
+    """sizes beyond TLC's for the sub-harmonic part: the response to each of the last 54 deviates (the sub-harmonic ones while the
+    transcribed draw layout 2 N^2 + 54 is observed) is measured; the covariance they add, sum_k col_k col_k^T, is invariant under
+    swapping x and y (isotropic spectrum on symmetric 3 x 3 frequency grids, mean removed) - tested with tilts and random weights -
+    has zero mean, and is the same whether the grid is 64, 70 or 128 pixels wide when sampled at the same physical points."""
+    bad, n = [], 0
+    r0, delta, L0, l0 = PARAMS[0]
+    rs = np.random.default_rng(99)
+    for N in sizes:
+        g = Recording(5)
+        ps.ft_sh_phase_screen(r0, N, delta, L0, l0, seed=g)
+        total = int(sum(v.size for v in g.log))
+        if total != 2 * N * N + 54:
+            return bad, n, "sub-harmonic deviates are not the last 54 of 2 N^2 + 54"
+        cols = []
+        for k in range(total - 54, total):
+            e = np.zeros(total)
+            e[k] = 1.0
+            try:
+                cols.append(np.asarray(ps.ft_sh_phase_screen(r0, N, delta, L0, l0, seed=Indexed(e)), float))
+            except ProtocolChanged as ex:
+                return bad, n, str(ex)[:120]
+            n += 1
+        cols = np.array(cols)
+        if cols.shape != (54, N, N) or not np.all(np.isfinite(cols)):
+            bad.append(("ft_sh_phase_screen:sub-harmonic-response:large-grid", dict(N=N, shape=list(cols.shape))))
+            return bad, n, None
+        sc = max(np.abs(cols).max(), 1e-300)
+        if np.abs(cols.mean((1, 2))).max() > 1e-10 * sc:
+            bad.append(("ft_sh_phase_screen:mean-not-removed:large-grid", dict(N=N)))
+            return bad, n, None
+        yy, xx = np.indices((N, N)) - (N - 1) / 2.0
+        tests = [xx, xx * xx - yy, xx * yy * yy + 0.3 * xx] + [rs.standard_normal((N, N)) for _ in range(4)]
+        for t, w in enumerate(tests):
+            a = float(((cols * w[None]).sum((1, 2)) ** 2).sum())
+            b = float(((cols * w.T[None]).sum((1, 2)) ** 2).sum())
+            if abs(a - b) > 1e-8 * max(a, b, 1e-300):
+                bad.append(("ft_sh_phase_screen:sub-harmonic-power-not-isotropic:large-grid", dict(N=N, weight=t, along_rows=a, along_columns=b)))
+                return bad, n, None
+    return bad, n, None
+
+
 def check_huge(ps, N=4096):
     """one very large screen (16 M pixels): for fixed draws the amplitude scales exactly as r0^(-5/6) and the spatial mean is zero to
     double precision"""
@@ -667,6 +709,13 @@ def run(run):
         run.violation(key, detail, dict(kind="constant"))
     total += nk
     with np.errstate(all="ignore"):
+        bads, nsub, note_s = ([], 0, None) if (lattice_off or sumrule_off) else check_subharmonic_isotropy(ps, (64, 70) if quick else (64, 70, 128, 130))
+    for key, detail in bads:
+        run.violation(key, detail, dict(kind="subharmonic"))
+    if note_s:
+        run.drift("draw-protocol-differs-from-transcription", dict(where="sub-harmonic part of large grids", why=note_s))
+    total += nsub
+    with np.errstate(all="ignore"):
         badb, nbig, note = ([], 0, lattice_off[0][:200]) if lattice_off else check_big_sizes(ps, r.printed, (320,) if quick else (320, 384, 300))
     for key, detail in badb:
         run.violation(key, detail, dict(kind="big"))
@@ -696,6 +745,11 @@ def replay(run, case):
     if case.get("kind") == "threads-or-huge":
         with np.errstate(all="ignore"):
             for key, detail in check_two_threads(ps) + check_huge(ps):
+                run.violation(key, detail, case)
+        return
+    if case.get("kind") == "subharmonic":
+        with np.errstate(all="ignore"):
+            for key, detail in check_subharmonic_isotropy(ps)[0]:
                 run.violation(key, detail, case)
         return
     if case.get("kind") == "constant":
